@@ -110,7 +110,7 @@ def handle6 (op : String) (a obs : List String) : Option Verdict :=
           | _ => true),
          ("held_streams_end", whenS != "streams" || (field obs "held_read" != "timeout" && field obs "held_write" != "timeout")),
          ("later_stream_calls_fail_never_succeed", whenS != "streams" ||
-            (field obs "held_write" != "ok" && (splitList (field obs "held_finish")).all (fun r => r != "ok" && r != "timeout"))),
+            (field obs "held_write" != "ok" && field obs "held_read" != "eos" && field obs "held_read" != "data" && (splitList (field obs "held_finish")).all (fun r => r != "ok" && r != "timeout"))),
          ("peer_told", field obs "peer_close" != "alive")])
     pure (model, prop)
   | "drop.handles" =>
